@@ -30,9 +30,9 @@ TRUSTED = ['model lean/TboxModel/C15/{Deserializer,Model}.lean is hand-written f
            'uninitialised reads are expressed in the model as reads of an unset destination; on the implementation side only '
            'ASan/UBSan observe memory errors (an uninitialised read that does not change an observable is not seen at run time)']
 ASSUMPTIONS = ['no datagram arrives on the real UDP socket during a run (queries go to 127.0.0.1-3:53, nothing listens)',
-               'the refusal when all 65 535 ids are outstanding is modelled and proved (C15_alloc_finds_free_id) but not generated (the list-based model is quadratic there); id wrap itself is generated (churn)',
+               'the DnsRequest object is not destroyed from inside one of its callbacks (TimeoutMonitor/UdpSocket assert cb_level_ == 0 in their destructors); a datagram that reaches the UDP socket while nothing is outstanding (socket disabled) is discarded by the harness instead of waiting in the kernel queue for the next request() (onUdpRecv would drop it as unknown id unless the id is handed out again first)',
                'the clock advances in whole seconds between operations (one timer firing per tick)']
-RULE = ('op sequences (servers/defscript/lookup/cancel/running/recv/tick; a lookup\'s callback is a script of API calls — new lookups with their own scripts, cancels of other lookups and of the own one — executed inside the reply/error/all-servers-failed/timeout callback) from props/C15/plugin.py: replies built from a structured DNS '
+RULE = ('op sequences (servers/defscript/lookup/cancel/running/recv/net/tick/churn/burst; `net` sends the datagram to the client\'s real UDP socket; a lookup\'s callback is a script of API calls — new lookups with their own scripts, cancels of other lookups and of the own one — executed inside the reply/error/all-servers-failed/timeout callback) from props/C15/plugin.py: replies built from a structured DNS '
         'encoder (A/CNAME/other records, compression pointers, chains of 1..18 pointers) then mutated (truncation at every '
         'offset, inflated counts, self/looping/out-of-range pointers, NUL and long labels, wrong rdlength, rcodes, QR bit, '
         'foreign ids, bit flips) plus a random-bytes stream; non-trivial = at least one callback ran and at least one datagram '
@@ -194,9 +194,162 @@ def mutate(rng, r):
 def hx(b): return b.hex() if b else '-'
 
 
+def hdr(i, fl, qd, an): return u16(i) + u16(fl) + u16(qd) + u16(an) + u16(0) + u16(0)
+
+
+def long_name(total, end=b'\0'):
+    """a name whose encoded length (labels + length bytes, without the terminator) is exactly `total`"""
+    out = b''
+    left = total
+    k = 0
+    while left > 0:
+        n = min(63, left - 1)
+        if n <= 0: break
+        out += bytes([n]) + bytes([97 + (k + i) % 26 for i in range(n)])
+        left -= n + 1; k += 1
+    return out + end
+
+
+BOUNDARY_FAMILIES = ['ptr-last-byte', 'ptr-forward', 'ptr-header', 'ptr-hops', 'label-63', 'label-64', 'name-253', 'name-255',
+                     'name-256', 'name-long', 'rdlen-over', 'rdlen-under', 'an-over', 'an-under', 'hdr-cut', 'qd0', 'qd2',
+                     'qd2-short', 'flags', 'ttl', 'type-class', 'a-rdlen']
+
+
+def boundary_reply(rng, rid, fam):
+    """one structured boundary datagram of family `fam` (each family has a well-formed side and a broken side)"""
+    qn = b'\x03www\x07example\x03com\x00'
+    q = qn + u16(1) + u16(1)
+    a_rec = lambda name, ttl=300, ip=b'\x5d\xb8\xd8\x22', rdlen=4: name + u16(1) + u16(1) + u32(ttl) + u16(rdlen) + ip
+    cn_rec = lambda name, target, rdlen=None: name + u16(5) + u16(1) + u32(60) + u16(len(target) if rdlen is None else rdlen) + target
+    body = hdr(rid, 0x8180, 1, 1) + q
+    if fam == 'ptr-last-byte':      # the first byte of a compression pointer is the last byte of the datagram
+        where = rng.choice(['owner', 'cname', 'question'])
+        if where == 'owner': return body + b'\xc0'
+        if where == 'cname': return body + ptr(12) + u16(5) + u16(1) + u32(1) + u16(2) + b'\xc0'
+        return hdr(rid, 0x8180, 1, 0) + b'\x03www\xc0'
+    if fam == 'ptr-forward':        # pointer to a name that lies BEHIND the record (accepted: only bounds and hops are checked)
+        rec = a_rec(ptr(len(body) + 16))
+        return body + rec + rng.choice([qn, b'\x01z\x00', b'\x00', b'\x01z', ptr(12)])
+    if fam == 'ptr-header':         # pointer into the header / to offset 0 / to the last byte / one past the end
+        d = body + a_rec(ptr(12))
+        tgt = rng.choice([0, 2, 11, len(d) - 1, len(d), len(d) + 1, 0x3FFF])
+        return body + a_rec(ptr(tgt))
+    if fam == 'ptr-hops':           # chains exactly at / around the hop limit, through labels as well (seed C15-2's shape)
+        k = rng.choice([15, 16, 17, 18])
+        if rng.random() < 0.5: return chain_reply(rng, rid, k)
+        # label + pointer back to itself: a cycle that passes through a label
+        return hdr(rid, 0x8180, 1, 0) + b'\x01a' + ptr(12) + u16(1) + u16(1)
+    if fam == 'label-63': return body + cn_rec(ptr(12), bytes([63]) + b'l' * 63 + b'\x00') + a_rec(ptr(12))
+    if fam == 'label-64': return body + cn_rec(ptr(12), bytes([64]) + b'l' * 64 + b'\x00')   # 0x40: reserved bits, read as a 64-byte label
+    if fam in ('name-253', 'name-255', 'name-256', 'name-long'):
+        total = {'name-253': 253, 'name-255': 255, 'name-256': 256, 'name-long': rng.choice([300, 700, 2000])}[fam]
+        t = long_name(total, end=rng.choice([b'\x00', ptr(12)]))
+        return body + (cn_rec(ptr(12), t) if rng.random() < 0.7 else a_rec(t))
+    if fam == 'rdlen-over':         # RDLENGTH larger than what is left
+        rest = rng.choice([0, 1, 3, 10])
+        kind = rng.choice(['other', 'other', 'a', 'cname'])
+        if kind == 'a': return body + a_rec(ptr(12), rdlen=rng.choice([5, 100, 65535]))
+        if kind == 'cname': return body + cn_rec(ptr(12), b'\x01c\x00', rdlen=rng.choice([4, 100, 65535]))
+        return body + ptr(12) + u16(16) + u16(1) + u32(1) + u16(rest + rng.choice([1, 2, 1000, 65535 - rest])) + b'x' * rest
+    if fam == 'rdlen-under':        # RDLENGTH exactly what is left / one less (then garbage is the next record)
+        rest = rng.choice([1, 4, 20])
+        return hdr(rid, 0x8180, 1, 2) + q + ptr(12) + u16(16) + u16(1) + u32(1) + u16(rest - rng.choice([0, 1])) + b'x' * rest + a_rec(ptr(12))
+    if fam == 'an-over': return hdr(rid, 0x8180, 1, rng.choice([2, 3, 65535])) + q + a_rec(ptr(12))
+    if fam == 'an-under': return hdr(rid, 0x8180, 1, rng.choice([0, 1])) + q + a_rec(ptr(12)) + a_rec(ptr(12), ip=b'\x01\x01\x01\x01')
+    if fam == 'hdr-cut': return (body + a_rec(ptr(12)))[:rng.randrange(0, 13)]
+    if fam == 'qd0': return hdr(rid, 0x8180, 0, 1) + a_rec(qn)
+    if fam == 'qd2': return hdr(rid, 0x8180, 2, 1) + q + b'\x02aa\xc0\x10' + u16(28) + u16(1) + a_rec(ptr(12))
+    if fam == 'qd2-short': return hdr(rid, 0x8180, 2, 1) + q + a_rec(ptr(12))       # second question missing: the A record is eaten as a question
+    if fam == 'flags':              # TC, AA, RA off, Z bits, non-zero opcode: all ignored as long as QR=1, rcode=0
+        fl = 0x8000 | rng.choice([0x0200, 0x0400, 0x0000, 0x0070, 0x7800, 0x0380, 0x7FF0])
+        return hdr(rid, fl, 1, 1) + q + a_rec(ptr(12))
+    if fam == 'ttl': return body + a_rec(ptr(12), ttl=rng.choice([0, 1, 0x7FFFFFFF, 0x80000000, 0xFFFFFFFF]))
+    if fam == 'type-class':         # 16-bit type compare; class is not looked at
+        t = rng.choice([0x0101, 0x0100, 0x0001, 0x0005, 0x0105, 0, 65535]); c = rng.choice([1, 3, 255, 0])
+        return body + ptr(12) + u16(t) + u16(c) + u32(7) + u16(4) + b'\x0a\x00\x00\x01'
+    if fam == 'a-rdlen':            # A record with RDLENGTH 0..3 / 5 at the very end (seed C15-3's shape) and followed by a record
+        rl = rng.choice([0, 1, 2, 3, 5, 16])
+        if rng.random() < 0.5: return body + a_rec(ptr(12), ip=b'\x09' * min(rl, 4), rdlen=rl)
+        return hdr(rid, 0x8180, 1, 2) + q + a_rec(ptr(12), ip=b'\x09' * rl, rdlen=rl) + a_rec(ptr(12))
+    raise ValueError(fam)
+
+
+def gen_boundary(rng):
+    """replies of the structured boundary families, each to its own outstanding lookup, then the ring drains"""
+    ops = []
+    k = rng.choice([3, 5, 8])
+    for i in range(k): ops.append('lookup')
+    for i in range(k):
+        fam = rng.choice(BOUNDARY_FAMILIES)
+        ops.append(('net ' if rng.random() < 0.3 else 'recv ') + hx(boundary_reply(rng, i + 1, fam)))
+        if rng.random() < 0.3: ops.append('running %d' % (i + 1))
+    for i in range(k): ops.append('running %d' % (i + 1))
+    ops += ['tick'] * 5
+    return ops
+
+
+def gen_netbig(rng):
+    """datagrams around UdpSocket's 4096-byte receive buffer through the real socket: a reply padded to 4095/4096/4097
+    bytes, a reply whose last record straddles byte 4096 (cut off by the socket: dropped as malformed; the same bytes
+    handed to onUdpRecv directly are accepted), each followed by the intact short reply"""
+    q = b'\x03www\x07example\x03com\x00' + u16(1) + u16(1)
+    a_rec = ptr(12) + u16(1) + u16(1) + u32(300) + u16(4) + bytes([93, 184, 216, 34])
+    ops = ['lookup', 'lookup', 'lookup', 'lookup']
+    rid = 1
+    for size in rng.sample([4095, 4096, 4097, 4100, 6000, 20000], 3):
+        base = hdr(rid, 0x8180, 1, 1) + q + a_rec
+        ops.append(rng.choice(['net ', 'net ', 'recv ']) + hx(base + b'\x00' * (size - len(base))))
+        ops.append('running %d' % rid); rid += 1
+    # an "other" record whose rdata ends at 4090..4100, then an A record
+    end = rng.choice([4085, 4092, 4096, 4100])
+    head = hdr(rid, 0x8180, 1, 2) + q + ptr(12) + u16(16) + u16(1) + u32(1)
+    rdlen = end - len(head) - 2
+    d = head + u16(rdlen) + b'x' * rdlen + a_rec
+    ops += ['net ' + hx(d), 'running %d' % rid, 'recv ' + hx(d), 'running %d' % rid]
+    return ops + ['tick'] * 5
+
+
+def gen_idedge(rng):
+    """ids 65535, 0 (never handed out) and 1 around the wrap of the allocator with outstanding entries; replies
+    addressed to them; a lookup cancelled and its id handed out again before the old ring entry expired"""
+    ops = []
+    pre = rng.choice([0, 1, 2])
+    for _ in range(pre): ops.append('lookup')
+    if pre and rng.random() < 0.5: ops.append('cancel 1')
+    ops += ['tick'] * rng.choice([0, 1, 2])
+    ops.append('churn %d' % (65534 - pre - rng.choice([0, 0, 1])))          # the counter stops just below 65535
+    for _ in range(rng.choice([2, 3, 4])): ops.append('lookup')               # 65535, (0 skipped), 1 or the next free id, ...
+    for i in (65535, 0, 1, 2, 3): ops.append('running %d' % i)
+    good = lambda i: hdr(i, 0x8180, 1, 1) + b'\x01a\x00' + u16(1) + u16(1) + ptr(12) + u16(1) + u16(1) + u32(5) + u16(4) + bytes([10, 0, i & 255, i >> 8])
+    for i in rng.sample([65535, 0, 1, 2, 3], 3): ops.append('recv ' + hx(good(i)))
+    for i in (65535, 0, 1, 2, 3): ops.append('running %d' % i)
+    ops += ['tick'] * rng.choice([3, 5, 6])
+    for i in (65535, 0, 1, 2, 3): ops.append('running %d' % i)
+    return ops
+
+
+def gen_ring(rng):
+    """a lookup in every second for longer than the ring is long (every slot occupied, the ring index wraps),
+    some answered, some cancelled, some retried from their timeout callback"""
+    ops = ['defscript L1', 'defscript -', 'defscript R1,Q']
+    n = 0
+    for t in range(rng.choice([6, 11, 13])):
+        for _ in range(rng.choice([1, 1, 2])):
+            ops.append(rng.choice(['lookup', 'lookup', 'lookup 0', 'lookup 2'])); n += 1
+        r = rng.random()
+        if r < 0.2 and n: ops.append('cancel %d' % rng.randrange(1, n + 1))
+        elif r < 0.4 and n: ops.append('recv ' + hx(hdr(rng.randrange(1, n + 1), 0x8183, 1, 0) + b'\x01a\x00' + u16(1) + u16(1)))
+        ops.append('tick')
+    for i in range(1, n + 3): ops.append('running %d' % i)
+    ops += ['tick'] * rng.choice([5, 10, 11])
+    for i in range(1, n + 6): ops.append('running %d' % i)
+    return ops
+
+
 def gen_scripts(rng, alloc_lb, nscripts_before):
     """defscript lines: new lookups (own script, other scripts, undefined script), cancels of any id around the
-    ones issued so far (other lookups, the own one, unknown ones) and cancel-self."""
+    ones issued so far (other lookups, the own one, unknown ones), cancel-self, isRunning of those ids / of the own
+    id, and setDnsIPAddresses — all made from inside the callback."""
     out = []
     k = rng.choice([1, 1, 2, 3])
     total = nscripts_before + k
@@ -204,9 +357,13 @@ def gen_scripts(rng, alloc_lb, nscripts_before):
         acts = []
         for _ in range(rng.choice([0, 1, 1, 1, 2, 3])):
             r = rng.random()
-            if r < 0.5: acts.append('L%d' % rng.choice(list(range(total)) + [nscripts_before + j, 63]))
-            elif r < 0.8: acts.append('C%d' % rng.choice(list(range(1, alloc_lb + 4)) + [0, 65535]))
-            else: acts.append('S')
+            ids = list(range(1, alloc_lb + 4)) + [0, 65535]
+            if r < 0.42: acts.append('L%d' % rng.choice(list(range(total)) + [nscripts_before + j, 63]))
+            elif r < 0.64: acts.append('C%d' % rng.choice(ids))
+            elif r < 0.76: acts.append('S')
+            elif r < 0.86: acts.append('R%d' % rng.choice(ids))
+            elif r < 0.92: acts.append('Q')
+            else: acts.append('V%d' % rng.choice([0, 1, 2, 3]))
         out.append('defscript ' + (','.join(acts) or '-'))
     return out
 
@@ -244,7 +401,7 @@ def gen_case(rng, hostile, scripted=False):
             else:
                 if rng.random() < (0.4 if scripted else 0.15): r.flags = rng.choice([0x8182, 0x8183, 0x8185, 0x8181])
                 d = r.build()
-            ops.append('recv ' + hx(d))
+            ops.append(('net ' if rng.random() < 0.3 else 'recv ') + hx(d))
         elif k < 0.63:
             ops.append('cancel %d' % rid)
         elif k < 0.70:
@@ -278,6 +435,8 @@ def gen_wrap(rng):
     ops += ['tick'] * rng.choice([0, 0, 1, 2, 3])
     ops.append('churn %d' % rng.choice([65535, 65535, 65534, 65533, 65536, 65532]))
     for _ in range(rng.choice([1, 2, 4])): ops.append(rng.choice(['lookup', 'lookup 0', 'burst 2']))
+    if rng.random() < 0.6:      # a reply for an id that was completed/cancelled and handed out again in the same pass
+        ops.append('recv ' + hx(u16(rng.choice([1, 2, 3, 4])) + u16(rng.choice([0x8183, 0x8182])) + u16(1) + u16(0) + u16(0) + u16(0) + b'\x01a\x00' + u16(1) + u16(1)))
     for i in range(1, 6): ops.append('running %d' % i)
     k = rng.choice([2, 3, 5])
     ops += ['tick'] * k
@@ -295,7 +454,7 @@ def directed():
     good = hdr(1, 0x8180, 1, 2) + q + cn_rec + a_rec
     # malformed op lines: both sides must say bad-op
     yield ['lookup', 'recv 0g', 'recv', 'cancel x', 'cancel 65536', 'servers 4', 'frob', 'tick 1', 'running',
-           'churn 0', 'churn 70001', 'churn x', 'burst 5001', 'burst', 'defscript', 'defscript L64', 'defscript C65536', 'defscript L1,', 'defscript X', 'lookup 64', 'lookup x', 'touch maybe', 'defscript S,L0,C7']
+           'net', 'net 0g', 'churn 0', 'churn 70001', 'churn x', 'burst 70001', 'burst', 'defscript', 'defscript L64', 'defscript C65536', 'defscript L1,', 'defscript X', 'lookup 64', 'lookup x', 'touch maybe', 'defscript S,L0,C7', 'defscript V4', 'defscript R65536', 'defscript Q1', 'defscript V', 'defscript V1,R2,Q']
     # the well-formed reply, a duplicate, a late reply, then the ring drains
     yield ['lookup', 'recv ' + hx(good), 'recv ' + hx(good), 'running 1'] + ['tick'] * 6
     # every truncation offset of the well-formed reply, then the intact one
@@ -339,6 +498,17 @@ def directed():
     yield ['defscript C1,S,L1', 'defscript S,C2', 'lookup 0'] + ['tick'] * 5 + ['running 1', 'running 2'] + ['tick'] * 5 + ['running 2']
     yield ['servers 2', 'defscript S,L0', 'lookup 0', 'recv ' + hx(sf(1, 2)), 'recv ' + hx(sf(1, 5)), 'running 1', 'running 2', 'touch off',
            'recv ' + hx(sf(2, 2)), 'recv ' + hx(sf(2, 2)), 'running 3'] + ['tick'] * 6
+    # replies through the real UDP socket: the last outstanding lookup completes (socket disabled inside its own read
+    # callback), its callback retries (socket enabled again inside the same callback); empty datagram; nothing outstanding
+    yield ['net ' + hx(good), 'defscript L0', 'lookup 0', 'net ' + hx(sf(1, 3)), 'running 1', 'running 2', 'net -', 'net ' + hx(u16(2) + good[2:]),
+           'running 3', 'cancel 3', 'net ' + hx(u16(3) + good[2:]), 'lookup', 'net ' + hx(u16(4) + good[2:]), 'running 4'] + ['tick'] * 6
+    # setDnsIPAddresses / isRunning from inside callbacks: the server count changes under a lookup that is waiting for
+    # the other servers' failures; a retry issued after the callback emptied the server list is refused
+    yield ['servers 3', 'defscript V1,R2,Q,L2', 'defscript -', 'defscript Q,R1', 'lookup 0', 'lookup 1', 'recv ' + hx(sf(2, 2)), 'recv ' + hx(sf(1, 3)),
+           'recv ' + hx(sf(2, 2)), 'running 2', 'running 3'] + ['tick'] * 6
+    yield ['defscript V0,L0,V1,L1', 'defscript Q', 'lookup 0'] + ['tick'] * 5 + ['running 1', 'running 2', 'running 3'] + ['tick'] * 5
+    # a lookup cancelled, its id handed out again while the old ring entry is still in the wheel, a reply for that id
+    yield ['lookup', 'tick', 'cancel 1', 'churn 65533', 'lookup', 'lookup', 'running 65535', 'running 1', 'recv ' + hx(sf(1, 3)), 'running 1'] + ['tick'] * 6
     # the 16-bit id counter wraps onto an outstanding lookup (as found: overwritten, never called back) ...
     yield ['lookup', 'churn 65535', 'lookup', 'running 1', 'running 2'] + ['tick'] * 5 + ['running 1', 'tick']
     # ... and onto an id whose stale ring entry is still in the wheel (as found: the new lookup times out early)
@@ -361,6 +531,22 @@ def gen(rng, tier):
         yield gen_case(rng, hostile=(i % 3 == 0), scripted=True)
     for i in range(6 if tier == 'quick' else 40):
         yield gen_wrap(rng)
+    for i in range(4 if tier == 'quick' else 30):
+        yield gen_idedge(rng)
+    for i in range(120 if tier == 'quick' else 1500):
+        yield gen_boundary(rng)
+    for i in range(40 if tier == 'quick' else 400):
+        yield gen_ring(rng)
+    for i in range(6 if tier == 'quick' else 40):
+        yield gen_netbig(rng)
+    # every boundary family at least once per run, to the same lookup shape
+    for fam in BOUNDARY_FAMILIES:
+        for _ in range(2 if tier == 'quick' else 12):
+            yield ['lookup', 'recv ' + hx(boundary_reply(rng, 1, fam)), 'running 1', 'tick', 'tick', 'tick', 'tick', 'tick']
+    if tier == 'thorough':
+        # all 65 535 ids outstanding: the next request() is refused; after one cancel exactly that id is handed out
+        yield ['burst 65535', 'lookup', 'running 65535', 'running 0', 'cancel 7', 'running 7', 'lookup', 'running 7', 'lookup',
+               'recv ' + hx(hdr(7, 0x8183, 1, 0) + b'\x01a\x00' + u16(1) + u16(1)), 'running 7']
     if tier == 'thorough':
         # every truncation offset and every single-byte overwrite (a few values) of two structured replies
         for _ in range(2):
